@@ -1071,3 +1071,307 @@ def tree_check(prop, tier):
 
 CHECKS["C01"] = lambda tier: tree_check("C01", tier)
 CHECKS["C14"] = lambda tier: tree_check("C14", tier)
+
+
+# ----------------------------------------------------------------------- C09
+QUEUE_VOCAB = ["C", "F", "G", "Z", "N 999", "N", "T 5", "SYST:ERR?", "SYST:ERR:NEXT?", "SYST:ERR:COUN?", "Q?", "H?", "SYST:VERS?"]
+QUEUE_CODES = [-113, -104, -120, -224, -350, -115]
+
+
+def c09(tier):
+    s = Session("C09", tier)
+    C.build_harness()
+    C.write_ifaces_module(s.wd)
+    # 1. the queue alone: bounded FIFO, overflow marker only at the back, older entries intact
+    for K in ([1, 2, 3] if tier == "quick" else [1, 2, 3, 4]):
+        s.model("MCErrorQueue", ("MCErrorQueueParams", [("K", str(K)), ("MaxOps", "7" if tier == "quick" else "9"), ("Variant", '"spec"')]),
+                label="MCErrorQueue(K=%d)" % K, workers=4)
+    s.model("MCErrorQueue", ("MCErrorQueueParams", [("K", "2"), ("MaxOps", "6"), ("Variant", '"dropoldest"')]),
+            expect_violation="OlderIntact", label="MCErrorQueue mutant: overflow drops the oldest")
+    s.model("MCErrorQueue", ("MCErrorQueueParams", [("K", "2"), ("MaxOps", "6"), ("Variant", '"dropnew"')]),
+            expect_violation="MarkerOnlyAtBack", label="MCErrorQueue mutant: overflow drops the new error silently")
+    # 2. end to end: every grouping of faults / queries / commands into messages, implementation-shaped run refines
+    hist = {}
+    for K in ([1, 2] if tier == "quick" else [1, 2, 3, 4]):
+        hist[K] = []
+        mu, mm = (3, 1) if tier == "quick" else (2, 2)
+        s.model("MCScpiRun", mc_run_params(QUEUE_VOCAB[:10] if tier == "quick" else QUEUE_VOCAB, mu, mm, iface="queue%d" % K),
+                on_line=lambda it, K=K: hist[K].append(it["msgs"]), workers=10,
+                label="MCScpiRun(queue%d, units<=%d, msgs<=%d)" % (K, mu, mm))
+    cases = []
+    for K, hs in hist.items():
+        s.rng.shuffle(hs)
+        for h in hs[:3000 if tier == "quick" else 30000]:
+            whole = b"".join(bytes(m) for m in h)
+            cases.append(run_case(whole, iface="queue%d" % K))
+    # 3. seeded long sessions on every capacity incl. the documented 10: one run buffer, run per message, process
+    for K in (1, 2, 3, 4, 10):
+        for _ in range(40 if tier == "quick" else 400):
+            msgs = random_history(s.rng, QUEUE_VOCAB + ["D !", "SYST:ERR?;:SYST:ERR:COUN?"], s.rng.randint(5, 60), maxunits=3)
+            whole = "".join(msgs)
+            cases.append(run_case(whole, iface="queue%d" % K))
+            cases.append(runs_case(msgs, iface="queue%d" % K))
+            cases.append(proc_case(whole, 64, random_chunks(s.rng, len(whole)), iface="queue%d" % K))
+    # 4. the ErrorQueue trait methods directly: all operation sequences to a depth, and seeded long ones
+    import itertools
+    ops_alpha = [{"op": "push", "n": -113}, {"op": "push", "n": -224}, {"op": "push", "n": 77, "custom": True}, {"op": "pop"}, {"op": "count"}]
+    D = 5 if tier == "quick" else 7
+    for K in (1, 2, 3, 4):
+        for t in itertools.product(range(len(ops_alpha)), repeat=D):
+            ops = []
+            for i in t:
+                ops += [ops_alpha[i], {"op": "count"}]
+            cases.append({"kind": "queue", "K": K, "ops": ops + [{"op": "pop"}] * (K + 1)})
+    for K in (1, 2, 3, 4, 10):
+        for _ in range(20 if tier == "quick" else 200):
+            ops = []
+            for _ in range(s.rng.randint(20, 200)):
+                r = s.rng.random()
+                if r < 0.5:
+                    ops.append({"op": "push", "n": s.rng.choice(QUEUE_CODES)} if s.rng.random() < 0.7 else
+                               {"op": "push", "n": s.rng.randint(1, 999), "custom": True})
+                elif r < 0.8:
+                    ops.append({"op": "pop"})
+                else:
+                    ops.append({"op": "count"})
+            cases.append({"kind": "queue", "K": K, "ops": ops})
+    recs = s.execute(cases, "c09")
+    rejected = s.validate(recs, "c09", chunk=3000)
+    s.report_rejected(rejected, "errors were not returned oldest first, the count was wrong, the queue exceeded its capacity, or overflow did not "
+                                "replace exactly the newest entry by -350")
+    s.sample(recs[:1] + [r for r in recs if r["kind"] == "queue"][:1])
+    nq = len([c for c in cases if c["kind"] == "queue"])
+    s.cov["direct_queue_sequences"] = nq
+    s.cov["distinct_nontrivial"] = len(s._distinct) + nq
+    s.cov["rule"] = ("(a) every sequence of depth D over {push -113, push -224, push custom, pop, count} on StaticErrorQueue<K>, K=1..4, count observed after "
+                     "every step and the queue drained at the end, plus seeded sequences of 20-200 operations incl. K=10; (b) every message history TLC "
+                     "builds over faults/custom errors/NEXT?/COUNt?/commands for interfaces with queue capacity K, and seeded sessions of up to 60 messages "
+                     "for K in {1,2,3,4,10} as one buffer, per message and through process; responses must decode to (number, description) of the oldest "
+                     "entry / the count; non-trivial = at least one error or query")
+    return s.finish(exhaustive=True)
+
+
+CHECKS["C09"] = c09
+
+
+# ----------------------------------------------------------------------- C03
+INT_BOUNDS = {"u8": (0, 2**8 - 1), "i8": (-2**7, 2**7 - 1), "u16": (0, 2**16 - 1), "i16": (-2**15, 2**15 - 1),
+              "u32": (0, 2**32 - 1), "i32": (-2**31, 2**31 - 1), "u64": (0, 2**64 - 1), "i64": (-2**63, 2**63 - 1),
+              "usize": (0, 2**64 - 1), "isize": (-2**63, 2**63 - 1)}
+TYNAME = {"u8": "U8", "i8": "I8", "u16": "U16", "i16": "I16", "u32": "U32", "i32": "I32", "u64": "U64", "i64": "I64",
+          "usize": "US", "isize": "IS", "f32": "F32", "f64": "F64", "bool": "BOOL", "str": "STR", "blk": "BLK"}
+
+
+def radix_lit(v, radix, rng=None):
+    if radix == 10:
+        return str(v)
+    if v < 0:
+        return None
+    s = {16: "%X", 8: "%o", 2: "{0:b}"}[radix]
+    body = (s % v) if radix != 2 else s.format(v)
+    pre = {16: "#H", 8: "#Q", 2: "#B"}[radix]
+    if rng and rng.random() < 0.3:
+        pre, body = pre.lower(), body.lower()
+    return pre + body
+
+
+def c03_literals(rng, tier):
+    """(type, literal text) pairs"""
+    out = []
+    for ty, (lo, hi) in INT_BOUNDS.items():
+        vals = {lo - 1, lo, lo + 1, -1, 0, 1, hi - 1, hi, hi + 1, hi + 2, lo - 2, 2**63, -2**63 - 1, 2**64, 2**64 - 1, -(2**64) + 1, -(2**64) + 5,
+                2**64 + 1, 10**20, -10**19, 2**31, 2**32, 2**15, 2**16, 2**7, 2**8, 255, 256, -129, 128}
+        for k in (8, 16, 32, 63, 64):
+            vals |= {2**k - 1, 2**k + 1, -(2**k) - 1, -(2**k) + 1}
+        for v in sorted(vals):
+            for radix in (10, 16, 8, 2):
+                lit = radix_lit(v, radix, rng)
+                if lit is not None:
+                    out.append((ty, lit))
+            # decimal spelling axes
+            sv = str(abs(v))
+            sign = "-" if v < 0 else ""
+            for form in ("+" + sv if v >= 0 else None, sign + "0" + sv, sign + "00" + sv, sign + sv + ".", sign + sv + ".0", sign + sv + ".5",
+                         sign + sv + "E0", sign + sv + "e+0", sign + sv + "0E-1", sign + sv + "5e-1", sign + sv[:-1] + "." + sv[-1] + "E1" if len(sv) > 1 else None,
+                         sign + sv + ".00e0", sign + "." + sv + "e%d" % len(sv)):
+                if form:
+                    out.append((ty, form))
+    # all short literals over a small alphabet, into a few types
+    import itertools
+    L = 3 if tier == "quick" else 4
+    for n in range(1, L + 1):
+        for t in itertools.product("0179F+-.E", repeat=n):
+            lit = "".join(t)
+            for ty in ("u8", "i8", "bool", "f32", "i64"):
+                out.append((ty, lit))
+            out.append(("u16", "#H" + lit))
+    # every kind of data into every type
+    kinds = ["ON", "off", "On", "TRUE", "false", "MAX", "1", "0", "01", "1.0", "+1", "2", "#H1", "#B0", "#Q7", "#HFF", "'1'", '"ON"', "''", "#11", "#10", "#213abcdefghijklm", "1e0", "-0", "0.0", "1E400", "1e-400"]
+    for ty in TYNAME:
+        for k in kinds:
+            out.append((ty, k))
+    # floats: boundaries, halfway cases, subnormals, seeded random decimal strings
+    fl = ["0", "-0", "0.0", "1", "-1", "0.1", "0.5", "1e23", "8.5e-320", "4.9e-324", "2.4703282292062327e-324", "2.4703282292062328e-324",
+          "1.7976931348623157e308", "1.7976931348623158e308", "1.7976931348623159e308", "2e308", "9007199254740993", "9007199254740992.5", "16777217",
+          "16777216.5", "3.4028235e38", "3.4028236e38", "3.40282357e38", "1.17549435e-38", "1e-45", "7e-46", "1.401298464324817e-45",
+          "0.000000000000000000000000000000000000000000001", "123456789012345678901234567890", ".5", "5.", "+.5e+3", "1E5", "1e+5", "00001.50000",
+          "1." + "0" * 40 + "1", "9" * 50, "0." + "0" * 60 + "1"]
+    for _ in range(300 if tier == "quick" else 5000):
+        ip = "".join(rng.choice("0123456789") for _ in range(rng.randint(0, 20)))
+        fp = "".join(rng.choice("0123456789") for _ in range(rng.randint(0 if ip else 1, 20)))
+        ex = rng.choice(["", "", "e%d" % rng.randint(-330, 310), "E%+d" % rng.randint(-50, 50)])
+        fl.append(rng.choice(["", "-", "+"]) + ip + ("." + fp if fp or rng.random() < 0.2 else "") + ex)
+    for f in fl:
+        if f.strip("+-") in ("", "."):
+            continue
+        out.append(("f64", f))
+        out.append(("f32", f))
+    return out
+
+
+def c03(tier):
+    from vlib import floats as F
+    s = Session("C03", tier)
+    C.build_harness()
+    C.write_ifaces_module(s.wd)
+    for (sig, L) in ([("0179+-.E", 4), ("#HhB017F", 4), ("#Q0178 ", 4)] if tier == "quick" else [("0179+-.Ee", 5), ("#HhBbQq0178F", 5), ("ONFTRUEaf", 4)]):
+        s.model("MCScpiValues", ("MCScpiValuesParams", [("Sigma", "{%s}" % ",".join(str(ord(c)) for c in sig)), ("MaxLen", str(L))]),
+                label="MCScpiValues(Sigma=%r, L<=%d)" % (sig, L), workers=8)
+    F.selftest(s.rng, 300)
+    lits = c03_literals(s.rng, tier)
+    cases = []
+    for ty, lit in lits:
+        cases.append(run_case("V:%s %s\n" % (TYNAME[ty], lit), iface="vals"))
+    # parameter count matrix: 0..12 written against 0..10 declared; first failing parameter decides
+    for k in range(0, 11):
+        for w in range(0, 13):
+            cases.append(run_case("AR:N%d %s\n" % (k, ",".join(str((i * 37) % 256) for i in range(w))), iface="vals"))
+        if k:
+            for bad in range(k):
+                for badlit in ("256", "'x'", "-1", "1.5", "#HFFF"):
+                    args = [str(i + 1) for i in range(k)]
+                    args[bad] = badlit
+                    cases.append(run_case("AR:N%d %s\n" % (k, ",".join(args)), iface="vals"))
+    for m in ["MIX 1,ON,'s',#11x,-5", "MIX 256,ON,'s',#11x,-5", "MIX 1,2,'s',#11x,-5", "MIX 1,ON,s,#11x,-5", "MIX 1,ON,'s','x',-5",
+              "MIX 1,ON,'s',#11x,-32769", "MIX 256,2,s,'x',99999", "MIX 1,ON,'s',#11x", "MIXQ? -128,1.5,18446744073709551615",
+              "MIXQ? -129,1.5,1", "MIXQ? 1,x,1", "MIXQ? 1,1.5,18446744073709551616", "MIXQ? 1,1e999,7", "MIX 0,off,\"\",#10,0"]:
+        cases.append(run_case(m + "\n", iface="vals"))
+    recs = s.execute(cases, "c03")
+    rejected = s.validate(recs, "c03", chunk=4000)
+    s.report_rejected(rejected, "a literal was delivered with a value it does not denote, a handler was invoked despite an unfit literal / wrong count, "
+                                "or not exactly one error of the pinned class was reported")
+    # float half: the delivered bits must be the correctly rounded value (exact rational arithmetic)
+    nflt = bad = 0
+    for r in recs:
+        txt = bytes(r["in"])
+        if not (txt.startswith(b"V:F32 ") or txt.startswith(b"V:F64 ")):
+            continue
+        ty = "f32" if txt.startswith(b"V:F32") else "f64"
+        lit = txt[6:-1]
+        calls = [e for e in r["obs"] if e["e"] == "call"]
+        if not calls:
+            continue
+        try:
+            want = F.dec_to_bits(lit, ty)
+        except ValueError:
+            continue
+        nflt += 1
+        got = int(calls[0]["args"][0]["bits"], 16)
+        if got != want:
+            bad += 1
+            if len(s.violations) < 8:
+                p = C.write_replay("C03", "float-%s-%d" % (ty, nflt), {"why": "decimal literal not correctly rounded: got %x want %x" % (got, want),
+                                                                      "record": r, "float_check": {"ty": ty, "lit": lit.decode("latin1"), "want": "%x" % want}})
+                s.violations.append(("%s literal %r delivered as bits %x, correctly rounded value is %x" % (ty, lit, got, want), p))
+    s.cov["float_literals_checked_exactly"] = nflt
+    s.sample(recs[:2] + recs[-1:])
+    s.cov["rule"] = ("per integer type: values at and around MIN/MAX/0/2^k in decimal, #H, #Q, #B (upper and lower case) and 13 decimal spellings each "
+                     "(sign, leading zeros, '.', '.0', '.5', exponents); every literal of <= L chars over {0,1,7,9,F,+,-,.,E}; 27 literals of every data kind into "
+                     "all 15 parameter types; 0..12 parameters written against 0..10 declared and an unfit literal at every position; float literals incl. "
+                     "halfway and subnormal cases and seeded random decimal strings, checked bit-exactly by exact rational arithmetic; non-trivial = handler "
+                     "invoked or error reported; distinct by message")
+    s.assumptions += ["float halves: TLC pins kind/arity/error class, the bit pattern is decided by bin/vlib/floats.py (exact rationals), which is "
+                      "replayed against the TLA+ definition ScpiFloat on miniature formats"]
+    return s.finish(exhaustive=False)
+
+
+CHECKS["C03"] = c03
+
+
+# ----------------------------------------------------------------------- C04
+def c04(tier):
+    from vlib import floats as F
+    import struct
+    s = Session("C04", tier)
+    C.build_harness()
+    C.write_ifaces_module(s.wd)
+    s.model("MCScpiResponse", ("MCScpiResponseParams", [("Legacy", "FALSE")]), label="MCScpiResponse(RoundTrip, Injective)", workers=8)
+    s.model("MCScpiResponse", ("MCScpiResponseParams", [("Legacy", "TRUE")]), expect_violation="RoundTrip",
+            label="MCScpiResponse legacy: embedded quotes not doubled")
+    desc = json.load(open(os.path.join(C.SPEC, "ifaces", "resp.json")))
+    writers = [{"k": "rec"}, {"k": "std"}, {"k": "heapless", "cap": 2048}, {"k": "heapless", "cap": 16}, {"k": "heapless", "cap": 4}]
+    msgs = []
+    for ty, (lo, hi) in INT_BOUNDS.items():
+        for v in sorted({lo, lo + 1, -1, 0, 1, 9, 10, 99, 100, hi - 1, hi} & set(range(lo, hi + 1)) | {lo, hi}):
+            msgs.append("R:%s? %d" % (TYNAME[ty], v))
+    for c in desc["cmds"]:
+        sp = c["beh"].get("spec", {})
+        if sp.get("k") == "table":
+            for i in range(len(sp["vals"])):
+                msgs.append("%s %d" % (c["cmd"], i))
+    msgs += ["R:BOOL? ON", "R:BOOL? 0", "R:UNIT?", "R:CUST?", "R:FAIL?", "R:CMD 5", "R:CMD 999", "R:NOPE?", "R:U8? 256", "R:U8?", "R:SSTR? 1,2",
+             "R:STR? 'a\"b'", "R:STR? \"it's\"", "R:STR? ''", "R:STR? 'é€'", "R:BLK? #10", "R:BLK? #15a\"\n;,", "R:BLK? #213" + "x" * 13]
+    specials = [0x0, 0x8000000000000000, 0x1, 0x000FFFFFFFFFFFFF, 0x0010000000000000, 0x7FEFFFFFFFFFFFFF, 0x7FF0000000000000, 0xFFF0000000000000,
+                0x7FF8000000000000, 0x7FF0000000000001, 0xFFF8000000000001, 0x3FF0000000000000, 0x3FB999999999999A, 0x4340000000000000,
+                0x4340000000000001, 0x433FFFFFFFFFFFFF, 0x44B52D02C7E14AF6, 0x3E7AD7F29ABCAF48]
+    for k in range(0, 64):
+        specials += [1 << k, (1 << k) - 1]
+    for _ in range(400 if tier == "quick" else 20000):
+        specials.append(s.rng.getrandbits(64))
+    f64m = ["R:F64? %d" % (x & (2**64 - 1)) for x in specials]
+    s32 = [0x0, 0x80000000, 0x1, 0x007FFFFF, 0x00800000, 0x7F7FFFFF, 0x7F800000, 0xFF800000, 0x7FC00000, 0x7F800001, 0x3F800000, 0x3DCCCCCD, 0x4B800000, 0x4B7FFFFF]
+    for k in range(0, 32):
+        s32 += [1 << k, (1 << k) - 1]
+    for _ in range(400 if tier == "quick" else 20000):
+        s32.append(s.rng.getrandbits(32))
+    f32m = ["R:F32? %d" % x for x in s32]
+    cases = []
+    for m in msgs + f64m + f32m:
+        cases.append({"kind": "multi", "iface": "resp", "in": b(m + "\n"), "writers": writers, "procs": [{"N": 1024, "chunks": []}]})
+    # sequences: execution order, no output for failures, several responses in one message
+    pool = msgs + f64m[:40]
+    for _ in range(300 if tier == "quick" else 3000):
+        k = s.rng.randint(2, 5)
+        seq = [s.rng.choice(pool) for _ in range(k)]
+        whole = ";:".join(seq) + "\n"
+        cases.append({"kind": "multi", "iface": "resp", "in": b(whole), "writers": writers[:3], "procs": [{"N": 1024, "chunks": []}]})
+    recs = s.execute(cases, "c04")
+    rejected = s.validate(recs, "c04", chunk=300)
+    s.report_rejected(rejected, "a response is missing, malformed, out of order, does not decode to the returned value, differs between writers, "
+                                "or output was produced for a command / failed query / undefined header")
+    # float half: decode the response text exactly
+    nflt = 0
+    for r in recs:
+        txt = bytes(r["in"])
+        for ty, pre in (("f64", b"R:F64? "), ("f32", b"R:F32? ")):
+            if txt.startswith(pre) and b";" not in txt:
+                bits = int(txt[len(pre):-1])
+                outs = b"".join(bytes(e["b"]) for e in r["obs"]["runs"][0] if e["e"] == "out")
+                nflt += 1
+                ok = outs.endswith(b"\n") and F.response_ok(outs[:-1], bits, ty)
+                if not ok and len(s.violations) < 8:
+                    p = C.write_replay("C04", "float-%s-%x" % (ty, bits), {"why": "float response does not decode to the returned value", "record": r})
+                    s.violations.append(("%s with bits %x answered %r, which does not decode bit-exactly" % (ty, bits, outs[:60]), p))
+    s.cov["float_responses_decoded_exactly"] = nflt
+    s.sample([{"in": C.show_bytes(c["in"])} for c in cases[:2] + cases[-1:]])
+    s.cov["rule"] = ("every integer type at its extremes and digit-count boundaries; every entry of the value tables of 14 table-driven queries (strings "
+                     "incl. quotes/commas/newlines/non-ASCII in &str, heapless::String, String; character data; blocks of 0,1,9,10,11,99,100,101,999,1000 bytes; "
+                     "tuples of 2-4; slices, heapless::Vec, slices of strings, nested; Error values); f32/f64 special values, powers of two and neighbours and "
+                     "seeded random bit patterns, decoded with exact rational arithmetic; each through the pass-through writer, std Vec, heapless 2048/16/4 and "
+                     "process::<1024>; seeded compound messages mixing queries, commands, failing and undefined units; non-trivial = produced a response or an error")
+    s.assumptions += ["float responses: the TLA+ spec pins the syntax (a decimal real followed by NL, flush); the bit-exact decode is done by "
+                      "bin/vlib/floats.py with exact rationals"]
+    return s.finish(exhaustive=False)
+
+
+CHECKS["C04"] = c04
